@@ -583,6 +583,7 @@ inductive E where
   | unsupported (why : String)
 deriving Repr, Inhabited
 
+mutual
 inductive S where
   | skip
   | seq (a b : S)
@@ -604,8 +605,20 @@ inductive S where
   | extCall (target : String) (name : String) (args : E)
   /-- `try: body  except exc as x: handler`, for a body whose failure leaves the state as it was (one assignment or call) -/
   | tryExcept (body : S) (exc : String) (x : String) (handler : S)
+  /-- `raise <expr>` (`raise <expr> from <cause>`): the value must be an exception object (`excObj`) -/
+  | raiseE (e : E)
+  /-- `try: body  except A as x: hA  except B as y: hB …`: the first handler whose class catches the exception runs, **in the
+  state before the `try`** (the translator emits this form only when no handler reads a name the body assigns); an
+  exception raised by a handler is not offered to the later ones -/
+  | tryCatch (body : S) (hs : H)
   | unsupported (why : String)
 deriving Repr, Inhabited
+
+inductive H where
+  | nil
+  | cons (exc x : String) (handler : S) (rest : H)
+deriving Repr, Inhabited
+end
 
 structure Fn where
   params : List String
@@ -760,6 +773,19 @@ def applyWriteBack (names : List (Option String)) (r : PV) (env : Env) : PV × E
   | .tuple [.str "__wb__", ret, .list ups] => (ret, writeBack names ups env)
   | v => (v, env)
 
+/-- an exception as a value: what `except … as e` binds and `raise e` raises -/
+def excObj (tag : String) : PV := .dict [(.str "__exception__", .str tag), (.str "errors", .list [])]
+
+def excTag : PV → Option String
+  | .dict ((.str "__exception__", .str tag) :: _) => some tag
+  | .opaque "exception" tag => some tag
+  | _ => Option.none
+
+/-- `except cls` catches `tag`: the class itself, or `Exception` for everything that is not a `BaseException`-only class
+(tags starting with `Base:`: KeyboardInterrupt, GeneratorExit, SystemExit) -/
+def catches (cls tag : String) : Bool := cls == tag || (cls == "Exception" && !tag.startsWith "Base:")
+
+mutual
 def exec (ext : Ext) : S → St → Except Err (Ctl × St)
   | .skip, st => .ok (.next, st)
   | .seq a b, st => do
@@ -815,7 +841,22 @@ def exec (ext : Ext) : S → St → Except Err (Ctl × St)
     match exec ext body st with
     | .error (.user tag) => if tag = exc then exec ext handler { st with env := st.env.set x (.opaque "exception" exc) } else .error (.user tag)
     | r => r
+  | .raiseE e, st => do
+    let v ← evalE ext st.env e
+    match excTag v with
+    | some tag => .error (.user tag)
+    | Option.none => .error (.typeError "exceptions must derive from BaseException")
+  | .tryCatch body hs, st =>
+    match exec ext body st with
+    | .error (.user tag) => execH ext hs tag st
+    | r => r
   | .unsupported why, _ => .error (.runtime ("unsupported: " ++ why))
+def execH (ext : Ext) : H → String → St → Except Err (Ctl × St)
+  | .nil, tag, _ => .error (.user tag)
+  | .cons cls x handler rest, tag, st =>
+    if catches cls tag then exec ext handler { st with env := st.env.set x (excObj tag) }
+    else execH ext rest tag st
+end
 
 def bindParams : List String → List PV → Env → Except Err Env
   | [], [], env => .ok env
